@@ -549,7 +549,7 @@ fn grid(pid: &'static str, proto: Proto) -> Vec<TimeCase> {
   }
   // under a frozen clock: exp / nbf on "now" to the nanosecond, and one nanosecond / microsecond / second either side
   if clock_is_frozen() {
-    for d in [0i64, 1, -1, 1_000, -1_000, 999_999_999, -999_999_999, 1_000_000_000, -1_000_000_000] {
+    for d in [0i64, 1, -1, 1_000, -1_000, 1_000_000, -1_000_000, 499_999_999, -500_000_000, 999_999_999, -999_999_999, 1_000_000_000, -1_000_000_000] {
       for off in [0i16, 60, -300, 1439, -1439, 345] {
         let r = Rendering { offset_min: off, digits: 9, sep: 0, zulu: if off == 0 { 1 } else { 0 } };
         if pid == "C11" {
